@@ -66,8 +66,9 @@ PerimeterOf(s) == SumSeq(path[s].lens) + (IF path[s].closed THEN path[s].lc ELSE
 DoMoveTo ==
   /\ ~done /\ sp < Len(path) /\ (IF sp = 0 THEN TRUE ELSE k > NSeg(sp) + (IF path[sp].closed THEN 1 ELSE 0))
   /\ sp' = sp + 1 /\ k' = 1 /\ pos' = 0
-  \* dashed.move_to(pt) first, then the previous initial segment is flushed after it
-  /\ out' = Flush(Append(out, <<"M", sp + 1, 0>>), sp, initSeg)
+  \* the previous initial segment is flushed, then dashed.move_to(pt) starts the new subpath (in this order since the
+  \* repair of the closed-single-point defect: a Close must never find the flushed polyline as the current subpath)
+  /\ out' = Append(Flush(out, sp, initSeg), <<"M", sp + 1, 0>>)
   /\ isFirstSeg' = TRUE /\ initSeg' = <<>> /\ firstDash' = TRUE /\ ds' = Initial
   /\ UNCHANGED <<path, A, off, done>>
 
